@@ -546,6 +546,9 @@ func (self *FieldMask) ForEachChild(scanner func(strKey string, intKey int, chil
 		return
 	case FtStruct:
 		fm := self.fdMask
+		if fm == nil {
+			return
+		}
 		for k, v := range fm.tail {
 			if !scanner("", int(k), v) {
 				return
@@ -569,6 +572,7 @@ func (self *FieldMask) ForEachChild(scanner func(strKey string, intKey int, chil
 			}
 		}
 	default:
-		panic("unsupported FieldMask type: " + strconv.Itoa(int(self.typ)))
+		// an unset FieldMask has no children
+		return
 	}
 }
